@@ -339,8 +339,17 @@ def lin_check_key(ops):
     return False
 
 
-def gen_conc(rng, safe):
-    """per-task op lists over a small key set.  safe = insert-only workload (put_if_absent + get)"""
+WORKLOADS = {
+    # op mix -> signature of the input class (concurrent tasks restricted to these operations on a shared small key set)
+    "insert-only": ([("a", 5), ("g", 3)], "concurrent-insert-only"),
+    "put-no-delete": ([("p", 5), ("a", 2), ("g", 3)], "concurrent-replacing-put"),
+    "delete-no-put": ([("a", 5), ("g", 2), ("x", 4)], "concurrent-delete-reclaim"),
+    "mixed": ([("p", 4), ("a", 2), ("g", 2), ("x", 4)], "concurrent-delete-vs-put"),
+}
+
+
+def gen_conc(rng, wl):
+    """per-task op lists over a small key set, restricted to the operations of workload `wl`"""
     nt = rng.choice([2, 2, 3, 4, 6, 8])
     K = rng.choice([1, 2, 2, 3, 4, 6])
     nops = rng.range(3, 14)
@@ -351,14 +360,11 @@ def gen_conc(rng, safe):
     for t in range(nt):
         l = []
         for i in range(nops):
-            if safe:
-                op = rng.weighted([("a", 5), ("g", 3)])
-            else:
-                op = rng.weighted([("p", 4), ("a", 2), ("g", 2), ("x", 4)])
+            op = rng.weighted(WORKLOADS[wl][0])
             val[0] += 1
             l.append((op, rng.range(1, K), val[0]))
         tasks.append(l)
-    return dict(tasks=tasks, kind=kind, cap=cap, K=K, prob=rng.choice([40, 90, 140, 200]), seed=rng.next() & 0xffffffff, safe=safe)
+    return dict(tasks=tasks, kind=kind, cap=cap, K=K, prob=rng.choice([40, 90, 140, 200]), seed=rng.next() & 0xffffffff, workload=wl)
 
 
 def conc_script(c, spin):
@@ -400,26 +406,21 @@ def conc_eval(c, out):
     return bad
 
 
-def conc_class(c, hist):
-    """input class of a non-linearizable per-key history"""
-    if c["safe"]:
-        return "concurrent-insert-only"
-    ops = set(h["op"] for h in hist["history"])
-    if "x" in ops and "p" in ops:
-        return "concurrent-delete-vs-put"
-    if "x" in ops:
-        return "concurrent-delete"
-    if "p" in ops:
-        return "concurrent-replacing-put"
-    return "concurrent-mixed-neighbour"
+def conc_class(c):
+    return WORKLOADS[c["workload"]][1]
+
+
+def run_conc(exe, c, env, spin, timeout=90):
+    """one process per case: a crash / corrupted pool cannot leak into the next case"""
+    rc, out, err = core.run_lines(exe, conc_script(c, spin) + ["Q"], timeout=timeout, env=env)
+    return conc_eval(c, out)
 
 
 def minimise_conc(exe, c, env, key, spin, tries=3):
     """drop ops (from the end of each task list) while the same key stays non-linearizable in `tries` runs out of `tries`"""
     def bad(cc):
         for _ in range(tries):
-            rc, out, err = core.run_lines(exe, conc_script(cc, spin) + ["Q"], timeout=60, env=env)
-            r = conc_eval(cc, out)
+            r = run_conc(exe, cc, env, spin, timeout=60)
             if r is None or key not in r:
                 return False
         return True
@@ -536,42 +537,24 @@ def run(ctx):
     conc_bad = []        # (signature, config, case, key, hist)
     conc_dead = []
     conc_ops = 0
-    sp_total = 0
+    wl_hist = {}
     r4 = rng.fork()
-    configs = [(1, 1, 0), (1, 1, 0), (2, 2, 1), (4, 1, 1)] if quick else [(1, 1, 0), (1, 1, 0), (1, 1, 0), (2, 2, 1), (4, 1, 1), (2, 1, 1), (1, 4, 1)]
-    per = 40 if quick else 220
-    for (ns, nw, spin) in configs:
+    configs = [(1, 1, 0), (2, 2, 1), (4, 1, 1)] if quick else [(1, 1, 0), (2, 2, 1), (4, 1, 1), (2, 1, 1), (1, 4, 1)]
+    per = (120, 30) if quick else (1200, 200)
+    wls = ["insert-only", "put-no-delete", "delete-no-put", "mixed", "insert-only"]
+    for ci, (ns, nw, spin) in enumerate(configs):
         env = core.qenv(ns, nw, stack=65536)
-        batch = [gen_conc(r4, safe=(j % 3 == 0)) for j in range(per)]
-        script = []
-        for c in batch:
-            script += conc_script(c, spin)
-        rc, out, err = core.run_lines(exe, script + ["Q"], timeout=300 if quick else 900, env=env)
-        # split on the N lines
-        chunks = []
-        cur = None
-        for l in out[1:]:
-            if l.startswith("N "):
-                cur = []
-                chunks.append(cur)
-            if cur is not None:
-                cur.append(l)
-        for j, c in enumerate(batch):
-            if j >= len(chunks):
-                conc_dead.append((ns, nw, c))
-                break
+        for j in range(per[0] if ci == 0 else per[1]):
+            c = gen_conc(r4, wls[j % len(wls)])
+            wl_hist[c["workload"]] = wl_hist.get(c["workload"], 0) + 1
             conc_runs += 1
             conc_ops += sum(len(l) for l in c["tasks"])
-            g = [l for l in chunks[j] if l.startswith("G ")]
-            if g:
-                sp_total += int(g[0].split()[2])
-            res = conc_eval(c, chunks[j])
+            res = run_conc(exe, c, env, spin)
             if res is None:
-                conc_dead.append((ns, nw, c))
-                break
+                conc_dead.append((ns, nw, spin, c))
+                continue
             for k, h in res.items():
-                conc_bad.append((conc_class(c, h), (ns, nw, spin), c, k, h))
-
+                conc_bad.append((conc_class(c), (ns, nw, spin), c, k, h))
     _t(ctx, "M4 ran")
     # ---------------- verdict ----------------
     ctx.cov.update(
@@ -581,8 +564,8 @@ def run(ctx):
              "(old count = 5*size-1, 5*size, 5*size+1); cap scripts. non-trivial = script in which the table grew or the list held >= 6 nodes",
         samples=samples, traces_validated_against_impl=evals, input_distribution=dict(families=fam_hist, hash_kinds=kind_hist, ops=opcount),
         max_table_size_reached=max_size, table_sizes_reached=sorted(growth_steps), correspondence_mismatches=len(mismatches),
-        concurrent=dict(runs=conc_runs, operations=conc_ops, schedule_points_taken=sp_total, configs=[list(x) for x in configs],
-                        non_linearizable=len(conc_bad), classes=sorted(set(b[0] for b in conc_bad)), died=len(conc_dead)),
+        concurrent=dict(runs=conc_runs, operations=conc_ops, workloads=wl_hist, configs=[list(x) for x in configs],
+                        non_linearizable_histories=len(conc_bad), classes=sorted(set(b[0] for b in conc_bad)), died=len(conc_dead)),
         refuted_on_current_tree=["null_value_put_refuted", "null_key_put_refuted"])
     ctx.assumptions += ["sequential consistency; CAS/fetch-add atomic (C18)", "user hash/equals are pure functions, equals decides identity of keys",
                         "keys and values non-NULL (the refuted variants show what happens otherwise)"]
@@ -614,23 +597,28 @@ def run(ctx):
         small = c
         if cfg == (1, 1, 0):
             for _ in range(3):
-                rc, out, err = core.run_lines(exe, conc_script(c, 0) + ["Q"], timeout=60, env=env)
-                rr = conc_eval(c, out)
+                rr = run_conc(exe, c, env, 0, timeout=60)
                 if rr is not None and k in rr:
                     confirmed += 1
             if confirmed == 3:
                 small = minimise_conc(exe, c, env, k, 0)
-                rc, out, err = core.run_lines(exe, conc_script(small, 0) + ["Q"], timeout=60, env=env)
-                rr = conc_eval(small, out)
+                rr = run_conc(exe, small, env, 0, timeout=60)
                 if rr and k in rr:
                     h = rr[k]
         ctx.violation(sig, "non-linearizable history on key %d (%d occurrences in this run, class %s): %s; final get=%s" % (
                           k, len(lst), sig, " ".join("T%d:%s(%s)=%s[%d,%d]" % (e["task"], e["op"], e["arg"], e["ret"], e["inv"], e["res"]) for e in h["history"][:12]),
                           h["final_get"]),
                       dict(config=list(cfg), replays_confirmed=confirmed, key=k, history=h, case=small, script=conc_script(small, cfg[2])))
-    for (ns, nw, c) in conc_dead[:1]:
-        sig = "concurrent-crash-insert-only" if c["safe"] else "concurrent-crash-or-hang"
-        ctx.violation(sig, "the real code crashed or hung in a concurrent run on %dx%d" % (ns, nw), dict(config=[ns, nw], case=c, script=conc_script(c, 1)))
+    dead_seen = set()
+    for (ns, nw, spin, c) in conc_dead:
+        sig = conc_class(c)          # a crash/hang is reported in the input class of its workload
+        if sig in seen:
+            continue
+        if sig in dead_seen:
+            continue
+        dead_seen.add(sig)
+        ctx.violation(sig, "the real code crashed or hung in a concurrent %s run on %dx%d" % (c["workload"], ns, nw),
+                      dict(config=[ns, nw, spin], case=c, script=conc_script(c, spin)))
 
 
 def replay(ctx, path):
